@@ -123,14 +123,16 @@ PROPS = {
         "not_covered": ["two proofs share no commitment / evaluation (distribution statement)"],
     },
     "C03": {
-        "r": [("verifier", None), ("widgets", vk_unit), ("serial", lambda n: "Proof" in n or "Commitment" in n)],
+        "r": [("verifier", None), ("widgets", vk_unit), ("serial", lambda n: "Proof" in n or "Commitment" in n),
+              ("kernels", lambda n: n.startswith("proof.compute_lagrange"))],
         "claim": "Proof::verify (V2/V3), verify_legacy (V1), Verifier::verify_with_version, the six widget "
                  "compute_linearization_commitment fns, append_linearization_commitment_terms, the transcript protocol "
                  "(append_commitment/append_scalar/challenge_scalar/circuit_domain_sep/base/base_v3) and verifier-key seeding: "
                  "for ALL symbolic inputs the real code's transcript schedule, its two pairing inputs and its exits are "
                  "equal (exact polynomial normal form / sequence equality) to an independent statement of the PLONK "
                  "verification equation and Fiat-Shamir order."
-                 "Also: the proof codec (Proof / ProofEvaluations / Commitment from_bytes read every item with the type's canonical decoder, nothing before or after it).",
+                 "Also: the proof codec (Proof / ProofEvaluations / Commitment from_bytes read every item with the type's canonical decoder, nothing before or after it); "
+                 "the verifier's closed forms l1 = z_h / (n (z - 1)) and PI(z) = (z_h / n) sum pi_j / (root_j z - 1) with Err on a zero denominator (instances of 0..3 public inputs, every zero pattern).",
         "technique": "contract-based deductive verification: ring/trace contract checker (symbolic execution of the real fn, "
                      "callee contracts, exact polynomial normal form)",
         "level_note": "Trusted: the checker R itself, syn, the hand-written protocol statement. Assumed: RING model of the field, "
@@ -143,7 +145,7 @@ PROPS = {
     },
     "C05": {
         "r": [("widgets", pk_unit), ("prover", lambda n: n.startswith("quotient.") or n.startswith("prover.prove_inner")), ("composer_leaves", lambda n: "internal" in n),
-              ("permutation", None), ("linearization", None), ("preprocess", None)],
+              ("permutation", None), ("linearization", None), ("preprocess", None), ("kernels", lambda n: n.startswith("proof.compute_barycentric"))],
         "claim": "the five ProverKey::compute_quotient_i / compute_linearization and the permutation quotient/linearizer "
                  "terms equal, as polynomials in all their inputs, the gate identities of specs/ring/protocol.py times "
                  "selector and separation challenge (all field values, all rows); quotient_poly::compute returns "
